@@ -767,6 +767,11 @@ func emitAsm(out *bufio.Writer, id, tag string, cfg gmars.SimulatorConfig, text 
 	if o.res == "skipped" {
 		return
 	}
+	if o.res == "timeout" {
+		// the abandoned goroutine may allocate without bound: report this case and stop the run
+		fmt.Fprintf(out, "X %s %s %s %s %s | %s g=%d\n", id, tag, cfgFields(cfg), hexd(text), prog, o.res, o.g)
+		flushAndExit("CompileWarrior did not return within the deadline")
+	}
 	fmt.Fprintf(out, "X %s %s %s %s %s | %s g=%d", id, tag, cfgFields(cfg), hexd(text), prog, o.res, o.g)
 	if second != nil {
 		o2 := runAsmFull(cfg, second)
